@@ -616,6 +616,19 @@ example : admtEntry (fun x : ℚ => x) 2 (fun _ => 1) (fun op i j => if op = .Dx
   simp [dotN, List.range, List.range.loop]
 
 
+/-- **offset invariance**: `calculate_admt(ψ + c) = calculate_admt(ψ)` entry by entry on every generated grid — the
+flux map enters only through its discrete derivatives and every operator annihilates constants; in particular a map
+shifted so that its maximum or minimum is exactly 0 gives the same (finite) operator.  (Round-5 S oracle
+`depends-on-offset-of-psi` as a theorem about the model.) -/
+theorem admt_offset_invariant (nx ny i j : Nat) (h2x : 2 ≤ nx) (h2y : 2 ≤ ny) (hi : i < nx * ny)
+    (sqrt : α → α) (radii psi : Nat → α) (gdx gdy dx dy an c : α) :
+    admtEntry sqrt (nx * ny) radii (genOp nx ny gdx gdy) (fun k => psi k + c) dx dy an i j =
+      admtEntry sqrt (nx * ny) radii (genOp nx ny gdx gdy) psi dx dy an i j := by
+  have z : ∀ op, dotN (nx * ny) (genOp nx ny gdx gdy op i) (fun _ => c) = 0 := fun op =>
+    opTimes_genOp nx ny gdx gdy op _ i 0 (ops_annihilate_constants nx ny i h2x h2y hi op gdx gdy c)
+  unfold admtEntry admtCoeffs
+  simp only [dotN_add_const, z, add_zero]
+
 /-! ### non-vacuity -/
 
 /-- the nine boundary classes all occur already on a 3 × 3 grid, and voxel 4 is interior -/
